@@ -278,8 +278,10 @@ def check_functions(chk, name, text, pm, sdk, gen) -> None:
 
 
 def worker(args) -> Dict[str, Any]:
-    argv, shard, n_shards, n_models, n_instances = args
+    argv, shard, n_shards, n_models, n_instances = args[:-1]
+    mins = args[-1]
     chk = harness.Check("C08", "exploration", RULE, argv)
+    chk.set_worker_minimums(mins, n_shards)
     budget = chk.wall_budget(150, 900)
     models: List[Tuple[str, str]] = []
     if shard == 0:
@@ -293,7 +295,7 @@ def worker(args) -> Dict[str, Any]:
         for k, v in m.features.items():
             chk.hist("mmg_features", k, v)
     for idx, (name, text) in enumerate(models):
-        if chk.elapsed() > budget:
+        if chk.should_stop(budget):
             chk.count("models_skipped_for_budget", len(models) - idx)
             break
         check_model(chk, name, text, chk.rng("inst", name), n_instances)
@@ -308,9 +310,14 @@ def main(argv) -> int:
     if chk.tier == "thorough":
         # v3 fixture: real-world invariants on generated instances
         pass
+    mins = {
+        "models_with_sdk": chk.pick(20, 60),
+        "instances_verified": chk.pick(500, 5000),
+        "invariant_evaluations": chk.pick(2000, 20000),
+    }
     with concurrent.futures.ProcessPoolExecutor(max_workers=n_shards) as pool:
         jobs = [
-            pool.submit(worker, (list(argv), s, n_shards, n_models, n_instances))
+            pool.submit(worker, (list(argv), s, n_shards, n_models, n_instances, mins))
             for s in range(n_shards)
         ]
         for job in jobs:
@@ -318,9 +325,8 @@ def main(argv) -> int:
                 chk.merge(job.result())
             except Exception as err:
                 chk.harness_error(f"worker failed: {err!r}")
-    chk.require_min("models_with_sdk", chk.pick(20, 60))
-    chk.require_min("instances_verified", chk.pick(500, 5000))
-    chk.require_min("invariant_evaluations", chk.pick(2000, 20000))
     chk.assume("invariant errors are reported with the path to the instance / constrained value they concern")
     chk.assume("implementation-specific functions use the reference body written in the meta-model")
+    for counter_name, minimum in mins.items():
+        chk.require_min(counter_name, minimum)
     return chk.finish()
